@@ -4,7 +4,7 @@ SPEC = {
     "props": ["props/C05.vo"],
     "props_need_gen": ["props/C05.vo"],
     "gen_items": ["src/**:struct fields + unsafe impl Send/Sync"],
-    "tieA_required": False,
+    "tieA_required": True,
     "case_libs": ["theories/CasesTraits.vo", "gen/TypeEnv.vo"],
     "drivers": [{"driver": "traits", "profiles": ["debug"]}],
     "exhaustive": True,
